@@ -74,5 +74,52 @@ def fold():
     return _fn("synth::fold", "synth::fold", 3, 10, names, blocks)
 
 
+VEC_NEW = {"key": "alloc::vec::{impl#0}::new", "name": "std::vec::Vec::<T>::new", "args": [], "local": False}
+VEC_PUSH = {"key": "alloc::vec::{impl#1}::push", "name": "std::vec::Vec::<T, A>::push", "args": [], "local": False}
+
+
+def collect_filter_map():
+    """collect(inner.filter_map(f)) fused into one loop: v = Vec::new(); for x in inner { if let Some(y) = f(x) { v.push(y) } }
+    (used when f has side effects, e.g. pushes the rejected items somewhere else)"""
+    # _1 inner, _2 f, _3 next result, _4 &mut inner, _5 item, _6 &mut f, _7 f's result, _8 kept, _9 &mut result, _10 unit, _11/_12 discriminants
+    blocks = [
+        _blk([], {"t": "call", "func": VEC_NEW, "args": [], "dest": _pl(0), "target": 1, "fn_exp": False}),
+        _blk([_assign(4, {"k": "ref", "mut": True, "place": _pl(1)})],
+             {"t": "call", "func": NEXT, "args": [{"move": _pl(4)}], "dest": _pl(3), "target": 2, "fn_exp": False}),
+        _blk([_assign(11, {"k": "discr", "place": _pl(3)})],
+             {"t": "switch", "discr": {"move": _pl(11)}, "ty": None, "targets": [[0, 6], [1, 3]], "otherwise": 7}),
+        _blk([_assign(5, {"k": "use", "op": {"move": _pl(3, {"dc": 1, "name": "Some"}, {"f": 0, "ty": None})}}),
+              _assign(6, {"k": "ref", "mut": True, "place": _pl(2)})],
+             {"t": "call", "func": {"indirect": {"move": _pl(6)}}, "args": [{"move": _pl(5)}], "dest": _pl(7), "target": 4, "fn_exp": False}),
+        _blk([_assign(12, {"k": "discr", "place": _pl(7)})],
+             {"t": "switch", "discr": {"move": _pl(12)}, "ty": None, "targets": [[0, 1], [1, 5]], "otherwise": 7}),
+        _blk([_assign(8, {"k": "use", "op": {"move": _pl(7, {"dc": 1, "name": "Some"}, {"f": 0, "ty": None})}}),
+              _assign(9, {"k": "ref", "mut": True, "place": _pl(0)})],
+             {"t": "call", "func": VEC_PUSH, "args": [{"move": _pl(9)}, {"move": _pl(8)}], "dest": _pl(10), "target": 1, "fn_exp": False}),
+        _blk([], {"t": "return"}),
+        _blk([], {"t": "unreachable"}),
+    ]
+    names = [{"name": "iter", "place": _pl(1), "arg": 1}, {"name": "f", "place": _pl(2), "arg": 2}]
+    return _fn("synth::collect_filter_map", "synth::collect_filter_map", 2, 13, names, blocks)
+
+
+def collect_plain():
+    """collect(iter): v = Vec::new(); for x in iter { v.push(x) }"""
+    blocks = [
+        _blk([], {"t": "call", "func": VEC_NEW, "args": [], "dest": _pl(0), "target": 1, "fn_exp": False}),
+        _blk([_assign(4, {"k": "ref", "mut": True, "place": _pl(1)})],
+             {"t": "call", "func": NEXT, "args": [{"move": _pl(4)}], "dest": _pl(3), "target": 2, "fn_exp": False}),
+        _blk([_assign(6, {"k": "discr", "place": _pl(3)})],
+             {"t": "switch", "discr": {"move": _pl(6)}, "ty": None, "targets": [[0, 4], [1, 3]], "otherwise": 5}),
+        _blk([_assign(5, {"k": "use", "op": {"move": _pl(3, {"dc": 1, "name": "Some"}, {"f": 0, "ty": None})}}),
+              _assign(7, {"k": "ref", "mut": True, "place": _pl(0)})],
+             {"t": "call", "func": VEC_PUSH, "args": [{"move": _pl(7)}, {"move": _pl(5)}], "dest": _pl(8), "target": 1, "fn_exp": False}),
+        _blk([], {"t": "return"}),
+        _blk([], {"t": "unreachable"}),
+    ]
+    names = [{"name": "iter", "place": _pl(1), "arg": 1}]
+    return _fn("synth::collect", "synth::collect", 1, 9, names, blocks)
+
+
 def all_fns():
-    return [for_each(), fold()]
+    return [for_each(), fold(), collect_filter_map(), collect_plain()]
